@@ -288,6 +288,9 @@ pub fn generate(tier: &str, seed: u64, out: &mut Out) {
         }
     }
 
+    // ---- one buffer set, lists of 3 ... 250 points, every ordered triple
+    buffer_ladder(out);
+
     // ---- random long histories over random pools
     let n = if thorough { 2500 } else { 400 };
     for i in 0..n {
@@ -341,6 +344,67 @@ pub fn generate(tier: &str, seed: u64, out: &mut Out) {
         // repeating the previous request under another mode (implementation-side only)
         mode_switch(&mut r, &pool, &lens, out);
         run_history(&History { mode, pool, lens, ops }, out);
+    }
+}
+
+/// One CurveBuffers shared by control-point lists of very different sizes (3 ... 250 points of
+/// every segment kind): every ordered triple of requests, each compared with a fresh computation
+/// (implementation-side only: scratch buffers sized by an earlier, larger or smaller request).
+fn buffer_ladder(out: &mut Out) {
+    let gentle = |n: usize, ty: u8| -> Vec<Cp> {
+        // a gently bending open polyline: cheap for the Bezier subdivision at any size
+        let pos: Vec<(f32, f32)> = (0..n).map(|i| (i as f32 * 3.0, ((i * i) % 7) as f32 * 0.01 + (i as f32) * 0.2)).collect();
+        let lay: Vec<(u8, i32)> = (0..n).map(|i| if i == 0 { (ty, 0) } else { (0, 0) }).collect();
+        make(&pos, &lay)
+    };
+    // type codes as in `small_pool`: 1 Catmull, 2 Bezier, 3 linear, 4 perfect curve
+    let pool: Vec<Vec<Cp>> = vec![
+        gentle(3, 2), gentle(30, 2), gentle(120, 2), gentle(250, 2), gentle(2, 1), gentle(4, 1), gentle(3, 3),
+        make(&[(0.0, 0.0), (5.0, 5.0), (10.0, 0.0)], &[(4, 0), (0, 0), (0, 0)]), gentle(5, 4), vec![],
+    ];
+    let pts: Vec<_> = pool.iter().map(|p| to_points(p)).collect();
+    let lens = [None, Some(40.0)];
+    for m in [0u8, 1] {
+        for a in 0..pool.len() {
+            for b in 0..pool.len() {
+                for c in 0..pool.len() {
+                    let seq = [a, b, c];
+                    let pts2 = pts.clone();
+                    let res = guarded(move || {
+                        let mode = mode_of(m);
+                        let mut bufs = CurveBuffers::default();
+                        let mut bad: Option<String> = None;
+                        for (n, &k) in seq.iter().enumerate() {
+                            let len = lens[(n + k) % 2];
+                            let reference = Curve::new(mode, &pts2[k], len, &mut CurveBuffers::default());
+                            let ok = if (n + a) % 2 == 0 {
+                                let c = BorrowedCurve::new(mode, &pts2[k], len, &mut bufs);
+                                same(c.path(), c.lengths(), &reference)
+                            } else {
+                                let c = Curve::new(mode, &pts2[k], len, &mut bufs);
+                                same(c.path(), c.lengths(), &reference)
+                            };
+                            if !ok && bad.is_none() {
+                                bad = Some(format!("request #{n} differs from a fresh computation of the same request"));
+                            }
+                        }
+                        bad
+                    });
+                    out.oracle_checks += 3;
+                    out.count("source:buffer-ladder");
+                    let desc = format!(
+                        "one CurveBuffers, mode {m}, control-point lists of {} / {} / {} points (first types {:?})",
+                        pool[a].len(), pool[b].len(), pool[c].len(),
+                        [a, b, c].iter().map(|&k| pool[k].first().map(|p| p.ty)).collect::<Vec<_>>()
+                    );
+                    match res {
+                        Ok(None) => {}
+                        Ok(Some(x)) => out.fail("", &desc, &x),
+                        Err(e) => out.fail("", &desc, &format!("panic: {e}")),
+                    }
+                }
+            }
+        }
     }
 }
 
